@@ -320,7 +320,7 @@ def run_unit(unit, tier):
             res['violations'].extend(viols)
         res['samples'] = [{'model': 'ModelSIMiterative', 'grid': 'alpha1 x alpha2 x theta x G x H0'}]
     if fam == 'SIM':
-        for G in ('const20', 'step20-25'):
+        for G in (('step20-25',) if tier == 'quick' else ('const20', 'step20-25', 'alternating')):
             case = {'model': 'PAIR', 'a1': unit['a1'], 'a2': unit['a2'], 'th': unit['th'], 'G': G, 'horizon': unit['horizon']}
             dig.add(sorted(case.items()))
             viols, indet, conv = check_pair(case)
